@@ -1,0 +1,56 @@
+//go:build verif
+
+package ramfs
+
+import (
+	"fmt"
+
+	p9p "github.com/frobnitzem/go-p9p"
+)
+
+// Observational hooks for the verification harness in /verif.
+// Compiled only with -tags verif.
+
+// VerifNewServer returns a fresh, non-global file server with an empty root.
+func VerifNewServer() p9p.FileSys {
+	fs := &fServer{
+		lastpath: 1,
+		root: &FileEnt{
+			nref:     1,
+			children: make(map[string]*FileEnt),
+			Info:     newDir(1, "/", "root", p9p.DMDIR|0775),
+		},
+	}
+	fs.root.fs = fs
+	return fs
+}
+
+// VerifValidate checks, for every node reachable from the root, that its
+// reference count equals its number of parent links (the root has one
+// implicit link). It mirrors validate() in inode_test.go.
+func VerifValidate(fsys p9p.FileSys) error {
+	fs, ok := fsys.(*fServer)
+	if !ok {
+		return fmt.Errorf("not a ramfs server")
+	}
+	links := map[*FileEnt]int{fs.root: 1}
+	seen := map[*FileEnt]bool{}
+	var visit func(f *FileEnt)
+	visit = func(f *FileEnt) {
+		if seen[f] {
+			return
+		}
+		seen[f] = true
+		for _, c := range f.children {
+			links[c]++
+			visit(c)
+		}
+	}
+	visit(fs.root)
+	for f, n := range links {
+		if f.nref != n {
+			return fmt.Errorf("node %q: nref=%d links=%d", f.Info.Name, f.nref, n)
+		}
+	}
+	return nil
+}
